@@ -23,7 +23,7 @@ import prims_common as pc
 COMBOS = [("mep", "std"), ("mep", "alps"), ("team", "std"), ("team", "alps"), ("ga", "std"), ("ga", "alps"), ("de", "de"), ("de", "dealps")]
 FIELDS = ["kind", "strat", "mode", "seed", "individuals", "min_individuals", "layers", "tournament", "mate_zone",
           "elitism", "age_gap", "p_same", "p_cross", "p_mutation", "brood", "generations", "cache", "eval",
-          "evalmod", "shake_every", "max_stuck"]
+          "evalmod", "shake_every", "max_stuck", "shake0"]
 
 
 def p3(x):
@@ -32,7 +32,7 @@ def p3(x):
 
 
 def case_line(c):
-    return "run " + " ".join(str(c.get(f, 4294967295) if f == "max_stuck" else c[f]) for f in FIELDS)
+    return "run " + " ".join(str(c.get(f, 4294967295) if f == "max_stuck" else c.get(f, 0) if f == "shake0" else c[f]) for f in FIELDS)
 
 
 def envm(c):
@@ -66,6 +66,7 @@ def gen_config(rng, mode=None, combo=None, big=False):
         "generations": gens, "cache": rng.choice([0, 1]), "eval": rng.choice(["h", "h", "v", "r"]),
         "evalmod": rng.choice([1, 2, 3, 7, 1000]), "shake_every": rng.choice([0, 0, 0, 2, 3]),
         "max_stuck": rng.choice([4294967295, 4294967295, 0, 1, 2, 3]),
+        "shake0": rng.choice([0, 0, 1]),
     }
     if mode == "search":
         # search::run tunes the environment itself and runs twice; keep it small
@@ -92,6 +93,24 @@ def gen_cases(ck):
     for mode in ("search",):
         for combo in COMBOS:
             cases.append(gen_config(rng, mode, combo))
+    # user-supplied shake functions that change what the evaluator measures: firing at generation 0,
+    # at generation 1 only, periodically -- whole evolution::run, best-so-far checked after every event
+    for combo in COMBOS:
+        for shake0, every in ((1, 0), (1, 2), (0, 1), (0, 3)):
+            for ev in ("r", "h"):
+                c = gen_config(rng, "whole", combo)
+                c.update(shake0=shake0, shake_every=every, eval=ev, evalmod=1000, generations=max(2, c["generations"]),
+                         max_stuck=4294967295)
+                cases.append(c)
+    # ALPS selections from populations with UNEQUAL layer sizes (converged layers halved by set_allowed)
+    for combo in [cb for cb in COMBOS if cb[1] in ("alps", "dealps")]:
+        for _ in range(6 if ck.thorough else 3):
+            c = gen_config(rng, "sel", combo)
+            c.update(layers=rng.choice([2, 3, 4, 6]), individuals=rng.choice([6, 9, 16, 24]),
+                     p_same=rng.choice([0, 0.25, 0.5, 0.75]), generations=rng.choice([2, 4]))
+            c.update(min_individuals=rng.choice([1, 2, 2, 3]), tournament=rng.randint(1, 4), mate_zone=20,
+                     age_gap=rng.choice([1, 2, 5]))
+            cases.append(c)
     n = 6000 if ck.thorough else 170
     for i in range(n):
         cases.append(gen_config(rng, big=(i % 12 == 0)))
